@@ -346,6 +346,27 @@ theorem specUnique_model (xs : List Int) : specUnique xs (categories xs) (codes 
   · intro c hc
     simp [(mem_categories c xs).mp hc]
 
+theorem specLookup_model (cats dv : List Int) : specLookup cats dv (lookupCodes cats dv) = true := by
+  unfold specLookup lookupCodes
+  simp only [Bool.and_eq_true, List.all_eq_true, beq_iff_eq, List.length_map, true_and]
+  intro p hp
+  obtain ⟨h1, _⟩ := mem_zip_map_self _ dv p hp
+  rw [h1]
+  by_cases hc : p.1 ∈ cats
+  · have hc' : cats.contains p.1 = true := by simpa using hc
+    simp only [hc', if_true, beq_iff_eq]
+    exact getElem?_indexOf p.1 cats hc
+  · simp [hc]
+
+theorem lookupCodes_some_of_subset (pv dv : List Int) (h : ∀ x ∈ dv, x ∈ pv) :
+    ∀ c ∈ lookupCodes (categories pv) dv, c.isSome = true := by
+  intro c hc
+  unfold lookupCodes at hc
+  obtain ⟨x, hx, rfl⟩ := List.mem_map.mp hc
+  have hm : x ∈ categories pv := (mem_categories x pv).mpr (h x hx)
+  have : (categories pv).contains x = true := by simpa using hm
+  rw [if_pos this]; rfl
+
 /-! ## Python ranges -/
 
 theorem rangeUp_length (e : Int) (st : Nat) (hst : 0 < st) :
